@@ -419,17 +419,20 @@ def expect(state, m):
         if k in ('StoryDelete', 'EAStoryDelete'):
             ids = m.source_ids()
             nblank = sum(1 for t, _ in m.sources if t != 'id')
-            if _dups(ids):
-                ex.degenerate = True
-                return ex
+            # every occurrence of an ID that is not in the running order is a named story
+            # that cannot be found (one warning each); a repeated occurrence of an ID
+            # that WAS there may or may not be reported (it has just been deleted)
             missing = [i for i in ids if i not in sids]
+            repeats = len([i for i in ids if i in sids]) - len(set(i for i in ids if i in sids))
             st = [e for e in unchanged if e[0] not in ids]
-            if not missing and not nblank:
+            if not missing and not nblank and not repeats:
                 ex.resolves = True
             else:
                 err()
+            if repeats:
+                ex.classes.append('repeated-id-in-list')
             ok(st, {SNF: len(missing)} if missing else {},
-               {SNF: nblank} if nblank else {})
+               {SNF: nblank + repeats} if nblank + repeats else {})
             if len(m.sources) > 1:
                 ex.classes.append('multi-id-delete')
             if missing and len(missing) < len(ids):
@@ -593,16 +596,16 @@ def expect(state, m):
         if k in ('ItemDelete', 'EAItemDelete'):
             ids = m.source_ids()
             nblank = sum(1 for t_, _ in m.sources if t_ != 'id')
-            if _dups(ids):
-                ex.degenerate = True
-                return ex
             missing = [i for i in ids if i not in iids]
-            if not missing and not nblank:
+            repeats = len([i for i in ids if i in iids]) - len(set(i for i in ids if i in iids))
+            if not missing and not nblank and not repeats:
                 ex.resolves = True
             else:
                 err()
+            if repeats:
+                ex.classes.append('repeated-id-in-list')
             ok(with_items([i for i in iids if i not in ids]),
-               {INF: len(missing)} if missing else {}, {INF: nblank} if nblank else {})
+               {INF: len(missing)} if missing else {}, {INF: nblank + repeats} if nblank + repeats else {})
             if len(m.sources) > 1:
                 ex.classes.append('multi-id-delete')
             if missing and len(missing) < len(ids):
